@@ -374,3 +374,23 @@ class Asm:
             if a <= line <= b and (best is None or (b - a) < (best[1] - best[0])):
                 best = (a, b, label, kind)
         return best
+
+
+def add_proof_fns(asm, text, kind):
+    """add a block of `proof fn`s (lemmas / witnesses / canaries), one labelled region per function;
+    anything else in the block (spec fns, comments) is environment"""
+    parts = re.split(r'(?m)^(?=(?:pub )?proof fn )', text)
+    for part in parts:
+        m = re.match(r'(?:pub )?proof fn (\w+)', part)
+        if m:
+            # comments / spec fns following the function's closing brace stay outside the region
+            i = part.index('{', part.index(m.group(1)))
+            # the body '{' is the first '{' at line start (signature clauses never start a line with '{')
+            bm = re.search(r'(?m)^\{', part)
+            i = bm.start() if bm else i
+            j = _match(part, i, '{', '}')
+            asm.add(part[:j + 1], m.group(1), kind)
+            if part[j + 1:].strip():
+                asm.add(part[j + 1:], None)
+        elif part.strip():
+            asm.add(part, None)
